@@ -47,6 +47,7 @@ RULE = ("k-space tensors (coil,h,w,2), (coil,s,h,w,2), (b,coil,h,w,2), (b,coil,s
         "non-trivial = at least one sampled and one unsampled position and ≥ 4 k-space entries, or a malformed input that must "
         "be rejected; distinct = distinct protocol line / oracle case key")
 PENDING_FINDINGS: list[str] = []
+EXTRA_LEAN_MODULES = ["DirectVerif.Lemmas.C03"]   # helper lemmas: hygiene-checked and axiom-audited too
 
 F32MAX = 3.4028234663852886e38
 SPECIALS = [-0.0, float("inf"), float("-inf"), F32MAX, -F32MAX, 0.0]
